@@ -168,6 +168,7 @@ fn bridge<M: Machine>(scenario: &str, w: &Workload, log: &[Log], root: u16) -> (
         verif_seed: verif_seed(),
         run_index: 0,
         exact_data: w.exact_data,
+        isolated: false,
         tapes: [TapeSpec::Explicit(tapes[0].clone()), TapeSpec::Explicit(tapes[1].clone())],
         events,
         knobs: json!({"scenario": scenario, "workload": w.knobs}),
@@ -646,6 +647,7 @@ fn run_shard(shard: u64, iters: usize, sched_dir: &std::path::Path) -> ShardOut 
                 verif_seed: verif_seed(),
                 run_index: shard,
                 exact_data: false,
+                isolated: false,
                 tapes: [TapeSpec::Explicit(vec![]), TapeSpec::Explicit(vec![])],
                 events: vec![],
                 knobs: json!({"scenario": scenario}),
